@@ -149,7 +149,14 @@ class EnvironmentDataDescription(ComplexDop):
             if env_data.all_value:
                 tmp = encode_state.allow_unknown_parameters
                 encode_state.allow_unknown_parameters = True
+                # the common environment data is not located at the
+                # end of the PDU if it is followed by environment
+                # data which is specific to the trouble code
+                orig_is_end_of_pdu = encode_state.is_end_of_pdu
+                if any(numerical_dtc_value in x.dtc_values for x in self.env_datas):
+                    encode_state.is_end_of_pdu = False
                 env_data.encode_into_pdu(physical_value, encode_state)
+                encode_state.is_end_of_pdu = orig_is_end_of_pdu
                 encode_state.allow_unknown_parameters = tmp
                 break
 
